@@ -13,6 +13,9 @@ import Bng.Model.FreeList
                stats               => <allocated> <available> <total> <unavailable>
                list                => m1=<hex>,m2=<hex>,… | -   (every holding, via the snapshot hook)
                contains <hex>      => true | false             (Pool.Contains; a function of the configuration)
+               scribble <hex>      => ok                       (alias probe: the harness overwrites every slice the pool handed
+                                                                out or was handed; no pool operation — dhcp.Pool returns copies and
+                                                                keeps its own slices since fix 7ce824d)
     v6addr     new <basehex> <ones>                    => ok
                alloc d3 | release d3
                scribble d3         => as alloc; afterwards the harness overwrites the bytes it was handed (alias probe)
@@ -219,6 +222,12 @@ def step (kind : Kind) (st : St) (toks : List String) (impl : String) : St × Li
       (st, { modelObs := if b then "true" else "false", viols := vs.map fun (n, d) => (n, "none", d) })
     | _, _, _ => (st, { modelObs := "badop" })
   | _ =>
+    match kind, toks, st.model with
+    -- dhcppool's alias probe `scribble <hex>`: the caller's slices are not pool state — nothing happens on the model,
+    -- and the monitor hears of no API call
+    | .dhcp, ["scribble", a], some _ =>
+      (st, { modelObs := if (parseHex a).isSome then "ok" else "badop" })
+    | _, _, _ =>
     match st.model, parseOp kind toks with
     | some m, some op =>
       let (m', o) := FreeList.step m op
